@@ -6,6 +6,12 @@ mkdir -p out evidence
 cd spec
 for f in *.tla; do
   case "$f" in _gen_*) continue;; esac
+  if grep -q "^EXTENDS.*Apalache" "$f"; then
+    # typed wrapper for the symbolic checker: its standard module is not on SANY's path
+    apalache-mc typecheck --out-dir=/dev/shm/apa-setup "$f" > /dev/null 2>&1 || { echo "apalache typecheck failed on $f"; exit 1; }
+    rm -rf /dev/shm/apa-setup
+    continue
+  fi
   tla-sany "$f" > /dev/null 2>&1 || { echo "SANY failed on $f"; tla-sany "$f" | tail -20; exit 1; }
 done
 echo "setup ok"
